@@ -3,9 +3,9 @@ CONSTANTS London = 9
           Cancun = 12
           Amsterdam = 15
           MCForks = {0, 9, 12, 15}
-          MaxAmt = 3
+          MaxAmt = 2
           MaxDepth = 2
-          MaxTxs = 2
+          MaxTxs = 1
 INVARIANTS Conservation NonNegative SettledBetweenTxs
 CONSTRAINT Bounded
 CHECK_DEADLOCK FALSE
